@@ -41,6 +41,8 @@ type RawSpec struct {
 	CorruptSig bool
 	// SignedSuffix overrides the DID suffix inside deactivate signed data.
 	SignedSuffix string
+	// SuffixType is the optional entity type in a create's suffix data.
+	SuffixType string
 }
 
 // SignCompact produces a compact JWS exactly the way the repository's signing utility does
@@ -121,7 +123,7 @@ func BuildRaw(s *RawSpec) ([]byte, error) {
 		return canonicalizer.MarshalCanonical(&model.CreateRequest{
 			Operation:  operation.TypeCreate,
 			Delta:      reqDelta,
-			SuffixData: &model.SuffixDataModel{DeltaHash: deltaHash, RecoveryCommitment: s.NextRecoveryCommit, AnchorOrigin: s.AnchorOrigin},
+			SuffixData: &model.SuffixDataModel{DeltaHash: deltaHash, RecoveryCommitment: s.NextRecoveryCommit, AnchorOrigin: s.AnchorOrigin, Type: s.SuffixType},
 		})
 	case operation.TypeUpdate:
 		sd, err := sign(&model.UpdateSignedDataModel{DeltaHash: deltaHash, UpdateKey: s.RevealKey.JWK, AnchorFrom: s.From, AnchorUntil: s.Until})
